@@ -12,6 +12,9 @@ Decided (structural necessary conditions; the cursor arithmetic over histories i
  S5 trait-level writers (embedded_io::Write::write, fmt::Write::write_str): on every success path the slice handed to
     the sender is the caller's whole slice, and a returned byte count is the length of exactly the slice that was
     sent (a writer that sends a prefix but reports the full length drops the rest of the caller's bytes).
+ S6 no read of the receive buffer while it is posted: in every console function, after the receive buffer has been
+    handed to `add` no statement reachable without an intervening pop_used reads or writes it (C19.Q6) - a byte must be
+    copied out before the buffer is re-posted, or the device may already have overwritten it.
  S4 notification protocol on both queues is C05.N3.
 Not decided: equality of delivered and produced byte streams (cursor arithmetic across interleavings of recv / read /
 fill_buf / consume) - value reasoning over histories.
@@ -87,6 +90,8 @@ def run(F, R):
     for b in senders:
         s3_send(F, R, M, b, roles, rxq)
     s5_trait_writers(F, R, set(x['id'] for x in senders))
+    from .C19 import q6_no_access_after_post
+    q6_no_access_after_post(F, R, M, roles, rule='S6', only=lambda bb: bb.get('impl_adt') == DRV or DRV in (bb.get('impl_self') or ''))
 
 
 def norm_slice(t):
